@@ -190,6 +190,8 @@ pub fn eval_term(t: &Value) -> Vec<u8> {
 pub struct RecKey {
     pub dnskey: Dnskey<Vec<u8>>,
     pub captured: Mutex<Vec<Vec<u8>>>,
+    /// when set, the next `sign_raw` records its input and then fails
+    pub fail_next: Mutex<bool>,
 }
 
 impl RecKey {
@@ -198,6 +200,7 @@ impl RecKey {
             dnskey: Dnskey::new(flags, proto, SecurityAlgorithm::from_int(alg), public)
                 .expect("short key"),
             captured: Mutex::new(vec![]),
+            fail_next: Mutex::new(false),
         }
     }
     pub fn of_json(k: &Value) -> Self {
@@ -222,7 +225,32 @@ impl SignRaw for RecKey {
     }
     fn sign_raw(&self, data: &[u8]) -> Result<Signature, SignError> {
         self.captured.lock().unwrap().push(data.to_vec());
+        if std::mem::take(&mut *self.fail_next.lock().unwrap()) {
+            return Err(SignError);
+        }
         Ok(Signature::RsaSha256(vec![0xA5, 0x5A, 0x01, 0x02].into_boxed_slice()))
+    }
+}
+
+/// A real key whose backend can be made to fail once (an HSM hiccup).
+#[derive(Debug)]
+pub struct FlakyKey<K: SignRaw + std::fmt::Debug> {
+    pub inner: K,
+    pub fail_next: Mutex<bool>,
+}
+
+impl<K: SignRaw + std::fmt::Debug> SignRaw for FlakyKey<K> {
+    fn algorithm(&self) -> SecurityAlgorithm {
+        self.inner.algorithm()
+    }
+    fn dnskey(&self) -> Dnskey<Vec<u8>> {
+        self.inner.dnskey()
+    }
+    fn sign_raw(&self, data: &[u8]) -> Result<Signature, SignError> {
+        if std::mem::take(&mut *self.fail_next.lock().unwrap()) {
+            return Err(SignError);
+        }
+        self.inner.sign_raw(data)
     }
 }
 
@@ -535,11 +563,18 @@ pub mod denial {
             let apex_name = name_of(&jl(&apex));
             let sorted: SortedRecords<SName, SData> = SortedRecords::from(lib.clone());
             let sorted_j: Vec<Value> = sorted.iter().map(|r| json!({"n": jname(r.owner()), "t": r.rtype().to_int()})).collect();
-            let nsec = match run_nsec(lib.clone(), &apex_name, assume) {
-                Ok((c, ttl, _)) => json!({"chain": c, "ttl": ttl}),
-                Err(e) => json!({"err": e}),
+            // a panic of the generators is an outcome (the trace
+            // specification rejects it), never a crash of the recorder
+            use std::panic::{catch_unwind, AssertUnwindSafe};
+            let nsec = match catch_unwind(AssertUnwindSafe(|| run_nsec(lib.clone(), &apex_name, assume))) {
+                Ok(Ok((c, ttl, _))) => json!({"chain": c, "ttl": ttl}),
+                Ok(Err(e)) => json!({"chain": [], "ttl": 0, "err": e}),
+                Err(_) => json!({"chain": [], "ttl": 0, "err": "panic"}),
             };
-            let n3 = run_nsec3(lib, &apex_name, assume, optout, &salt, iters);
+            let n3 = match catch_unwind(AssertUnwindSafe(|| run_nsec3(lib.clone(), &apex_name, assume, optout, &salt, iters))) {
+                Ok(r) => r,
+                Err(_) => Err("panic".to_string()),
+            };
             // candidate names: owners and all their ancestors down to the apex
             let mut cands = std::collections::BTreeSet::new();
             for (n, _) in &recs {
@@ -563,7 +598,7 @@ pub mod denial {
                                 "flags": o.recs.iter().map(|r| r.3).max().unwrap_or(0),
                                 "flagsmin": o.recs.iter().map(|r| r.3).min().unwrap_or(0),
                                 "ttl": o.recs.first().map(|r| r.6).unwrap_or(0)}),
-                Err(e) => json!({"err": e}),
+                Err(e) => json!({"chain": [], "flags": 0, "flagsmin": 0, "ttl": 0, "err": e}),
             };
             // probes: absent and present names with a few types
             let mut probes = vec![];
